@@ -42,7 +42,7 @@ def handleFault (l : Line) : List Verdict :=
       update := persistent && flabel == "SETXX-KEEPTTL session",
       del := persistent && flabel == "DEL session" }
     let plan : IdpPlan := if flabel.startsWith "IDP" then
-        (match fkind with | "idp4xx" => .clientErr | "idpgarbage" => .broken | _ => if persistent then .serverErr else .ok secs)
+        (match fkind with | "idp4xx" => .clientErr | "idp4xx-html" => .clientErr | "idp4xx-empty" => .clientErr | "idpgarbage" => .broken | _ => if persistent then .serverErr else .ok secs)
       else .ok secs
     let cfg : Cfg := { mode := .standalone, forwardAuth := true }
     let st := toStoreSt pre
@@ -75,8 +75,8 @@ def handleFault (l : Line) : List Verdict :=
     let viol : List (String × String) :=
       (if wrote && !readOk then [("C11.token_without_read", "a token was forwarded although no store read of the session succeeded in this request")] else []) ++
       (if wrote && expiredPre && (upauth.drop 2).toString == pre.atok then [("C11.stale_token", s!"the expired token {pre.atok} was forwarded")] else []) ++
-      (if fkind == "idp4xx" && contacted > 0 && handler == "proxy" && wrote then [("C11.rejected_refresh_still_auth", "provider rejected the refresh token, request still forwarded with a token")] else []) ++
-      (if fkind == "idp4xx" && contacted > 0 && (handler == "refresh" || handler == "fwdauth") && status != 401 then [("C11.rejected_refresh_still_auth", s!"{handler} answered {status} after a 4xx from the provider")] else []) ++
+      (if fkind.startsWith "idp4xx" && contacted > 0 && handler == "proxy" && wrote then [("C11.rejected_refresh_still_auth", "provider rejected the refresh token, request still forwarded with a token")] else []) ++
+      (if fkind.startsWith "idp4xx" && contacted > 0 && (handler == "refresh" || handler == "fwdauth") && status != 401 then [("C11.rejected_refresh_still_auth", s!"{handler} answered {status} after a 4xx from the provider")] else []) ++
       (if transient && handler != "proxy" && status != cleanStatus then [("C11.transient_not_absorbed", s!"{handler}: {fcount} failure(s) of '{flabel}' changed the answer to {status}")] else []) ++
       (if transient && handler == "proxy" && !(fwd && wrote) then [("C11.transient_not_absorbed", s!"proxy: {fcount} failure(s) of '{flabel}': forwarded={fwd} token={upauth}")] else []) ++
       (if isLogout && persistent && flabel == "GET session" && successStatus then [("C11.logout_fault_success.lookup", s!"{handler} answered {status} although the session lookup failed")] else []) ++
